@@ -1,13 +1,20 @@
 /-
   Bnum.Drive.C15 — endianness conversions (`src/{buint,bint}/endian.rs`).
   Ops (both signednesses; names = Rust method names).  `a` hex pattern; `bytes` hex-encoded byte
-  string (`-` = empty).  The executed target is little-endian (`e = true`), like the harness host.
+  string (`-` = empty).  The plain op names are answered for a little-endian target (`e = true`), like
+  the harness host.  Every op also exists with the suffix `@be` (`to_be@be`, `to_ne_bytes@be`, …): the
+  same Rust method executed on a BIG-endian target (`e = false`; the harness answers these only when it
+  is itself compiled for a big-endian target — `gen/c15.py:post` runs it under Miri for s390x — and
+  `skip` otherwise).  There `to_be`/`from_be` are the identity, `to_le`/`from_le` swap, and the `ne`
+  byte conversions are the `be` ones.
     from_be_slice bytes | from_le_slice bytes          → `S(hex pattern)` / `N` / `P`
     to_be a | to_le a | from_be a | from_le a          → hex pattern
     to_be_bytes a | to_le_bytes a | to_ne_bytes a      → hex bytes (`P` on panic)
     from_be_bytes bytes | from_le_bytes bytes | from_ne_bytes bytes   (exactly `N*BYTES` bytes,
                                                         otherwise the request is rejected) → hex pattern
-  Spec answers come from exact arithmetic on the byte list / pattern value (`Bnum.Spec.Endian`).
+  Spec answers come from exact arithmetic on the byte list / pattern value (`Bnum.Spec.Endian`); for the
+  signed `to_*_bytes` the spec goes through the SIGNED value (`wrapU M (toInt M pattern)`, "the
+  two's-complement bytes").
 -/
 import Bnum.Drive.Util
 import Bnum.Model.Endian
@@ -15,19 +22,25 @@ import Bnum.Spec.Endian
 namespace Bnum.Drive.C15
 open Bnum Bnum.Drive
 
-/-- the model runs for a little-endian target -/
+/-- the plain ops run the model for a little-endian target -/
 def little : Bool := true
 
 private def showOO (c : Cfg) (r : Outcome (Option (List Nat))) : String :=
   showOut (showOpt (showVal c)) r
 
-def handle : Handler := fun c op args =>
+/-- all ops, for the target endianness `little` (`true` = little-endian target) -/
+def handleE (little : Bool) : Handler := fun c op args =>
   let w := c.w
   let bw := c.w / 8
   let n := c.n
   let nb := n * bw
   let m := M w n
   let sg := c.signed
+  -- the pattern whose bytes `to_*_bytes` must produce: for signed types via the signed value
+  let pv : List Nat → Nat := fun a => if sg then wrapU m (toInt m (U w a)) else U w a
+  -- exact byte reversal of the pattern iff `swap`
+  let sw : Bool → List Nat → Nat := fun swap a =>
+    if swap then Spec.Endian.swapPattern nb (U w a) else U w a
   match op, args with
   | "from_be_slice", [bs] => do
     let bs ← parseBytes bs
@@ -40,29 +53,30 @@ def handle : Handler := fun c op args =>
   | "to_be", [a] => do
     let a ← parseVal c a
     some (showVal c (if sg then II.toBe little bw a else UI.toBe little bw a),
-          toHex (Spec.Endian.swapPattern nb (U w a)))
+          toHex (sw little a))
   | "from_be", [a] => do
     let a ← parseVal c a
     some (showVal c (if sg then II.fromBe little bw a else UI.fromBe little bw a),
-          toHex (Spec.Endian.swapPattern nb (U w a)))
+          toHex (sw little a))
   | "to_le", [a] => do
     let a ← parseVal c a
-    some (showVal c (if sg then II.toLe little bw a else UI.toLe little bw a), toHex (U w a))
+    some (showVal c (if sg then II.toLe little bw a else UI.toLe little bw a), toHex (sw (!little) a))
   | "from_le", [a] => do
     let a ← parseVal c a
-    some (showVal c (if sg then II.fromLe little bw a else UI.fromLe little bw a), toHex (U w a))
+    some (showVal c (if sg then II.fromLe little bw a else UI.fromLe little bw a),
+          toHex (sw (!little) a))
   | "to_be_bytes", [a] => do
     let a ← parseVal c a
     some (showOut showBytes (if sg then II.toBeBytes bw n a else UI.toBeBytes bw n a),
-          showBytes (Spec.Endian.beBytes nb (U w a)))
+          showBytes (Spec.Endian.beBytes nb (pv a)))
   | "to_le_bytes", [a] => do
     let a ← parseVal c a
     some (showOut showBytes (if sg then II.toLeBytes bw n a else UI.toLeBytes bw n a),
-          showBytes (Spec.Endian.leBytes nb (U w a)))
+          showBytes (Spec.Endian.leBytes nb (pv a)))
   | "to_ne_bytes", [a] => do
     let a ← parseVal c a
     some (showOut showBytes (if sg then II.toNeBytes little bw n a else UI.toNeBytes little bw n a),
-          showBytes (Spec.Endian.leBytes nb (U w a)))
+          showBytes (if little then Spec.Endian.leBytes nb (pv a) else Spec.Endian.beBytes nb (pv a)))
   | "from_be_bytes", [bs] => do
     let bs ← parseBytes bs
     if bs.length != nb then none else
@@ -78,7 +92,14 @@ def handle : Handler := fun c op args =>
     if bs.length != nb then none else
     some (showOut (showVal c)
             (if sg then II.fromNeBytes little bw n bs else UI.fromNeBytes little bw n bs),
-          toHex (Spec.Endian.leValue bs))
+          toHex (if little then Spec.Endian.leValue bs else Spec.Endian.beValue bs))
   | _, _ => none
+
+/-- `op` → little-endian target; `op@be` → the same method on a big-endian target -/
+def handle : Handler := fun c op args =>
+  match op.splitOn "@" with
+  | [o] => handleE little c o args
+  | [o, "be"] => handleE false c o args
+  | _ => none
 
 end Bnum.Drive.C15
